@@ -177,6 +177,8 @@ def make_root(name):
   if name == 'tlist':
     return pg.List([{'x': 1}, {'x': 2}],
                    value_spec=pg.typing.List(pg.typing.Dict([('x', pg.typing.Int())])))
+  if name == 'dotted':
+    return pg.List([pg.Dict({'a.b': pg.Dict(x=0), '0': pg.List([pg.Dict({'[1]': 1})])}), 1])
   if name == 'smalld':
     return pg.Dict(p=pg.List([0]))
   if name == 'typedobj':
@@ -212,7 +214,7 @@ def make_root(name):
   raise ValueError(name)
 
 
-ROOT_NAMES = ('dict', 'list', 'listofdict', 'obj', 'tdict', 'tlist')
+ROOT_NAMES = ('dict', 'list', 'listofdict', 'obj', 'tdict', 'tlist', 'dotted')
 
 
 def build_world(init):
@@ -306,14 +308,16 @@ def menu(world, vals, modes=MODES, max_list=4, with_copy=True, node_vals=True, r
         for k in ks:
           for mode in modes:
             ops.append((mode, 'del', ri, keys, k))
-          ops.append(('', 'pop', ri, keys, k))
+          for mode in modes:
+            ops.append((mode, 'pop', ri, keys, k))
           ops.append(('', 'rebind', ri, keys, ((k, 'MISSING'),)))
           ops.append(('skip', 'rebind', ri, keys, ((k, 'sd'),)))
           ops.append(('noparents', 'rebind', ri, keys, ((k, 'sd'),)))
         if len(ks) >= 2 and rich:
           ops.append(('', 'rebind', ri, keys, ((ks[0], 'sd'), (ks[1], 'MISSING'))))
-        ops.append(('', 'popitem', ri, keys))
-        ops.append(('', 'clear', ri, keys))
+        for mode in modes:
+          ops.append((mode, 'popitem', ri, keys))
+          ops.append((mode, 'clear', ri, keys))
       elif isinstance(node, pg.List):
         n = len(node)
         for v in nvals:
@@ -332,17 +336,20 @@ def menu(world, vals, modes=MODES, max_list=4, with_copy=True, node_vals=True, r
               ops.append((mode, 'set', ri, keys, i, v))
             ops.append(('', 'rebind', ri, keys, ((i, v),)))
         if n + 2 <= max_list and rich:
-          ops.append(('', 'extend', ri, keys, ('sd', 'pl')))
-          ops.append(('', 'iadd', ri, keys, ('sd', 'pl')))
+          for mode in modes:
+            ops.append((mode, 'extend', ri, keys, ('sd', 'pl')))
+            ops.append((mode, 'iadd', ri, keys, ('sd', 'pl')))
           for mode in modes:
             ops.append((mode, 'setslice', ri, keys, (0, 1, None), ('sd', 'pd', 0)))
           ops.append(('', 'setslice', ri, keys, (n, n, None), ('sd', 'pl')))
         if rich and n * 2 <= max_list and n:
-          ops.append(('', 'imul', ri, keys, 2))
+          for mode in modes:
+            ops.append((mode, 'imul', ri, keys, 2))
         for i in range(n):
           for mode in modes:
             ops.append((mode, 'del', ri, keys, i))
-          ops.append(('', 'pop', ri, keys, i))
+          for mode in modes:
+            ops.append((mode, 'pop', ri, keys, i))
           ops.append(('', 'rebind', ri, keys, ((i, 'MISSING'),)))
           ops.append(('nonotify', 'rebind', ri, keys, ((i, 'MISSING'),)))
         if n >= 2:
@@ -352,12 +359,16 @@ def menu(world, vals, modes=MODES, max_list=4, with_copy=True, node_vals=True, r
             for mode in modes:
               ops.append((mode, 'setslice', ri, keys, (0, 2, None), ('sd',)))
               ops.append((mode, 'setslice', ri, keys, (None, None, -1), tuple(['sd'] * n)))
-            ops.append(('', 'delslice', ri, keys, (0, 2, None)))
-          ops.append(('', 'reverse', ri, keys))
-          ops.append(('', 'sort', ri, keys))
+            for mode in modes:
+              ops.append((mode, 'delslice', ri, keys, (0, 2, None)))
+              ops.append((mode, 'delslice', ri, keys, (None, None, -2)))
+          for mode in modes:
+            ops.append((mode, 'reverse', ri, keys))
+            ops.append((mode, 'sort', ri, keys))
         if n:
-          ops.append(('', 'clear', ri, keys))
-          ops.append(('', 'remove0', ri, keys))
+          for mode in modes:
+            ops.append((mode, 'clear', ri, keys))
+            ops.append((mode, 'remove0', ri, keys))
     if with_copy and len(world['roots']) > 1:
       other = 1 - ri if len(world['roots']) == 2 else None
       if other is not None:
